@@ -375,7 +375,25 @@ class Connection(object):
             self._logger.debug('TX %d octets, remain %d octets (msg empty %s)', sent_size, len(
                 self.__tx_buf), up_empty)
         cont = (not buf_empty or not up_empty)
+        if not cont:
+            self.send_buffer_empty()
         return cont
+
+    def send_pending(self):
+        ''' Get the number of octets taken from :py:meth:`send_raw` which
+        are not yet written to the socket.
+
+        :return: The buffer use (octets).
+        :rtype: int.
+        '''
+        return len(self.__tx_buf)
+
+    def send_buffer_empty(self):
+        ''' A handler function to be used when all transmit data has been
+        written to the socket.
+        Derived classes may overload this method.
+        '''
+        pass
 
     def send_ready(self):
         ''' Called to indicate that :py:meth:`send_raw` will return non-empty.
@@ -530,7 +548,11 @@ class Messenger(Connection):
 
         :return: True if there are no data being processed RX or TX side.
         '''
-        return len(self.__rx_buf) == 0 and len(self.__tx_buf) == 0
+        return (
+            len(self.__rx_buf) == 0
+            and len(self.__tx_buf) == 0
+            and self.send_pending() == 0
+        )
 
     def set_on_session_start(self, func):
         ''' Set a callback to be run when this session is started.
@@ -1489,6 +1511,10 @@ class ContactHandler(Messenger, dbus.service.Object):
         # heuristic for when to attempt to put new segments in
         if buf_use < 5 * self._send_segment_size:
             self._process_queue_trigger()
+
+    def send_buffer_empty(self):
+        # the last message may have been the end of the session
+        self._check_sess_term()
 
     def _tx_teardown(self):
         ''' Clear the TX in-progress bundle state. '''
